@@ -68,7 +68,7 @@ theorem new_rule_accepts (apl : List AttrPolicy) (r : Pat) (v : Bytes) (h : r.te
 example :
     let digits : Pat := ⟨1, fun v => v.all isDigit && !v.isEmpty⟩
     let lower : Pat := ⟨2, fun v => v.all isLowerA && !v.isEmpty⟩
-    let p : Policy := { elsAndAttrs := [(b!"b", [(b!"id", [some digits, some lower])]), (b!"i", [])],
+    let p : Policy := { initialized := true, elsAndAttrs := [(b!"b", [(b!"id", [some digits, some lower])]), (b!"i", [])],
                         setOfElementsAllowedWithoutAttrs := [b!"i"] }
     p.sanitizeCore b!"<b id=\"abc\">x &amp; y<i>z</i></b><b id=\"42\"></b>" =
       b!"<b id=\"abc\">x &amp; y<i>z</i></b><b id=\"42\"></b>" := by decide
